@@ -137,7 +137,7 @@ def draw_program(draw):
         elif k == 3:
             # c1*v_i + c2*v_j with coefficients that may vanish (mod p): a combination whose first term is a zero term
             main.append(["lin", draw(st.integers(0, nv - 1)), draw(st.integers(0, nv - 1)),
-                         draw(st.sampled_from([0, 0, 1, -1, 2, P])), draw(st.sampled_from([1, 1, 0, -1, 3]))])
+                         draw(st.sampled_from([0, 0, 1, -1, 2, P, True, False])), draw(st.sampled_from([1, 1, 0, -1, 3, True]))])
             nv += 1
         elif k == 4:
             main.append(["val", draw(st.integers(0, nv - 1))])
@@ -238,7 +238,7 @@ def render(prog):
             L.append("%s = %s %s %s" % (nm, v[s[2]], s[1], v[s[3]]))
             v.append(nm)
         elif s[0] == "lin":
-            L.append("%s = %s * (%d) + %s * (%d)" % (nm, v[s[1]], s[3], v[s[2]], s[4]))
+            L.append("%s = %s * (%r) + %s * (%r)" % (nm, v[s[1]], s[3], v[s[2]], s[4]))      # True / False stay Python bools
             v.append(nm)
         elif s[0] == "val":
             L.append("%s.val()" % v[s[1]])
